@@ -135,6 +135,17 @@ def run(ctx):
                                 fn.file, b["term"]["span"]["line"], sname)
 
     # ---- R3 boundary constant
+    r2c = chk.rule("R2c-every-range-count-is-labelled", "the branches under which a serialiser builds Content-Type cover every number of content ranges >= 1: a multipart body never goes out without the multipart Content-Type the reader needs", floor=2)
+    from .c05 import content_type_branch_gaps
+    for n_ser in sorted(n for n, f in F.fns.items() if f.crate == "rws" and f.kind != "Promoted" and f.ret == "std::vec::Vec<u8>" and any(callee_name(t) == "response::Response::generate_body" for _, t in f.calls())):
+        g_ = content_type_branch_gaps(ctx, n_ser)
+        if g_ is None:
+            continue
+        conds_, gaps_ = g_
+        r2c.instance({"serialiser": n_ser, "content_type_built_under": conds_, "range_counts_without_it": gaps_}, not gaps_)
+        if gaps_:
+            r2c.violate("C15|R2c|%s|gap" % n_ser, "%s builds no Content-Type for a response with %s content range(s) (branches %s): what it writes cannot be read back" % (n_ser, gaps_[:3], conds_), F.fns[n_ser].file, F.fns[n_ser].span["line"], n_ser)
+
     r3 = chk.rule("R3-boundary-constant-shared", "the multipart delimiter lines and the boundary parameter of Content-Type are built from the same constant", floor=2)
     gb = F.fns.get("response::Response::generate_body")
     items = {}
